@@ -68,6 +68,8 @@ type Unit struct {
 	arithChecked    bool
 	quantOK         bool
 	sliceConstLen   map[string]int
+	axiomErrs       []string
+	enumTag         map[string]*enumInfo // slice term -> the map whose keys it enumerates (after the loop)
 	usedInvs        map[string]bool
 	hparents        map[string][]string
 	qsorts          map[string]string
@@ -216,6 +218,10 @@ type Frame struct {
 	nameAddrs                          map[string]ssa.Value
 	lastKeyInfo                        keyInfo
 	freshBase                          string
+	loopPreSt                          map[*ssa.BasicBlock]*State // state on entry of each loop (for atloop and allocation-age invariants)
+	loopPreEnv                         map[*ssa.BasicBlock]*Env
+	curInstr                           ssa.Instruction
+	nameCands                          map[string][]ssa.Value // source names with several definitions
 }
 
 func (fr *Frame) val(v ssa.Value) *Val {
@@ -513,6 +519,18 @@ func (fr *Frame) collectNames() {
 				amb[id.Name] = true
 			}
 			fr.nameVals[id.Name] = d.X
+			if fr.nameCands == nil {
+				fr.nameCands = map[string][]ssa.Value{}
+			}
+			dupc := false
+			for _, c := range fr.nameCands[id.Name] {
+				if c == d.X {
+					dupc = true
+				}
+			}
+			if !dupc {
+				fr.nameCands[id.Name] = append(fr.nameCands[id.Name], d.X)
+			}
 		}
 	}
 	for n := range amb {
